@@ -248,6 +248,17 @@ func (rs *bodyStream) skipRest() error {
 		}
 
 		strCRLFLen := len(bytestr.StrCRLF)
+		if rs.chunkLeft > 0 {
+			// the handler stopped in the middle of a chunk: the rest of that chunk is
+			// body data, not chunk framing
+			if err := skipBytes(rs.reader, rs.chunkLeft); err != nil {
+				return err
+			}
+			rs.chunkLeft = 0
+			if err := utils.SkipCRLF(rs.reader); err != nil {
+				return err
+			}
+		}
 		for {
 			chunkSize, err := utils.ParseChunkSize(rs.reader)
 			if err != nil {
